@@ -509,6 +509,10 @@ HBPcloseAID(accrec_t *access_rec)
     if (--(info->attached) == 0) {
         /* Flush the data if it's been modified */
         if (info->modified) {
+            /* the buffer holds the whole element: write it from the start (HBconvert left the */
+            /* dependent access record at the end of the data it read in) */
+            if (Hseek(info->buf_aid, 0, DF_START) == FAIL)
+                HGOTO_ERROR(DFE_SEEKERROR, FAIL);
             if (Hwrite(info->buf_aid, info->length, info->buf) == FAIL)
                 HGOTO_ERROR(DFE_WRITEERROR, FAIL);
         } /* end if */
